@@ -14,7 +14,7 @@ COQ_FILES = ["Registry/Plugin.v", "Registry/Generated_Registry.v", "Registry/Cas
              "Registry/Props_C19.v"]
 LOGIC_THEOREMS = ["validate_iff_satisfies", "filter_keeps_exactly_valid", "filter_does_not_modify_input", "filtered_config_validates",
                   "validation_succeeds_iff_all_satisfied", "filter_from_capabilities_validates",
-                  "from_names_resolves_iff", "enable_required_sound"]
+                  "from_names_resolves_iff", "enable_required_sound", "enable_required_no_new_duplicates"]
 DATA_THEOREMS = ["names_unique", "every_name_resolves", "own_name_resolves_to_self",
                  "required_extractors_enableable", "filtered_scan_never_fails_validation"]
 THEOREMS = LOGIC_THEOREMS + DATA_THEOREMS
